@@ -9,6 +9,10 @@ package handlers
 //@ type baseHandler invariant [done] self.done != nil
 //@ type baseHandler invariant [channels] self.lines != nil && self.serverMessages != nil && self.maprMessages != nil && self.ackCloseReceived != nil
 //@ type baseHandler invariant [callback] self.handleCommandCb != nil
+// Serverless behaviour (C08: reading the process' own standard input) only in a
+// session whose user is the local user of a serverless session; the option a
+// peer sends cannot switch it on.
+//@ type baseHandler invariant [serverless-only-for-the-local-user] implies(self.serverless, self.user != nil && self.user.remoteAddress == "local(serverless)")
 //@ type baseHandler invariant [user] self.user != nil
 //@ type baseHandler chaninv lines [line-wellformed] open: elem != nil && elem.Content != nil
 //@ type readCommand invariant [server] self.server != nil
